@@ -2794,4 +2794,70 @@ theorem insertInline_residual (S : Schema) (hdet : PM.C11.detB S = true) (hfill 
     | addNodeMark _ _ => exact hs
     | removeNodeMark _ _ => exact hs
 
+/-- what is still asked of the step a **deletion** records once *all* of its payload and shape conjuncts are
+    theorems (C11 `delete_emits_payloadValid`, `delete_emits_wf`, `delete_around_is_move`): normal form of the
+    slice and pair-alignment; for a `ReplaceAroundStep` also the fit guard `gapFitsBack` of the inverse (finding
+    C04-around-text-gap is its complement) -/
+def DeleteResidualAround (S : Schema) (tr tr1 : Tr) : Prop :=
+  HistAll (fun s d d' =>
+    match s with
+    | .replace _ _ sl _ => fnorm sl.content = true ∧ s.undoAligned d'
+    | .replaceAround f t gf gt sl _ _ => fnorm sl.content = true ∧ gapFitsBack S d f t gf gt = true ∧ s.undoAligned d'
+    | _ => FamilyGuard S s d d') (appended tr tr1) tr1.doc
+
+/-- **deletions need no payload or shape hypothesis, replace-around answers included**: `OpResidual` of
+    `delete` / the `delete_range` call follows from `DeleteResidualAround` — for the recorded step, whichever
+    kind, `C01.PayloadValid` (for a replace-around answer: of the slice with the gap content in place) is
+    `C11.delete_emits_payloadValid`; `Slice.wf`, `insert ≤ slice.size` and the order of range and gap are
+    `C11.delete_emits_wf`; the structure flag is not set (`C11.delete_around_is_move`), so the two
+    `content_between` conditions are vacuous -/
+theorem delete_residual_around (S : Schema) (hdet : PM.C11.detB S = true) (hfill : S.fillersOKB = true)
+    (hleaf : PM.FromDom.leafOkB S = true)
+    (tr tr1 : Tr) (hlen : tr.steps.length = tr.docs.length) (hv : C01.Valid S tr.doc)
+    (hattrs : S.nodeAttrsOK tr.doc = true) (f t : Nat) (hft : f ≤ t)
+    (h : tr.runOp S (.replace f t Slice.empty) = some tr1) (hres : DeleteResidualAround S tr tr1) :
+    OpResidual S (.replace f t Slice.empty) tr tr1 := by
+  have h' : tr.planned (fun st => st.replaceF S f t Slice.empty) = some tr1 := h
+  obtain ⟨st', hrun, htr⟩ := Tr.planned_some h'
+  obtain ⟨r, hr, hstep⟩ := PSt.replaceF_spec S { tr := tr } st' f t Slice.empty hrun
+  simp only at hr hstep
+  cases r with
+  | none =>
+    simp only at hstep
+    have e : tr1.hist = tr.hist ++ [] := by rw [← htr, hstep]; simp
+    show HistAll (FamilyGuard S) (appended tr tr1) tr1.doc
+    rw [appended_eq e]
+    trivial
+  | some s =>
+    simp only at hstep
+    rw [htr] at hstep
+    obtain ⟨e, _⟩ := Tr.step_hist hlen hstep
+    show HistAll (FamilyGuard S) (appended tr tr1) tr1.doc
+    unfold DeleteResidualAround at hres
+    rw [appended_eq e] at hres ⊢
+    refine ⟨?_, trivial⟩
+    have hs := hres.1
+    have hpv := PM.C11.delete_emits_payloadValid S hdet hleaf tr.doc f t hv hattrs s hr
+    obtain ⟨_, hshape⟩ := PM.C11.delete_emits_wf S hdet hfill tr.doc f t hv hattrs hft s hr
+    cases s with
+    | replace F T sl b =>
+      simp only at hs
+      exact ⟨hs.1, hpv, hs.2⟩
+    | replaceAround F T G1 G2 sl ins b =>
+      simp only at hs
+      have hsh := hshape F T G1 G2 sl ins b rfl
+      simp only [aroundShape, Bool.and_eq_true, decide_eq_true_eq] at hsh
+      obtain ⟨⟨⟨⟨hwf, hins⟩, g1⟩, g2⟩, g3⟩ := hsh
+      obtain ⟨_, hb, _⟩ := PM.C11.delete_around_is_move S tr.doc f t hv F T G1 G2 sl ins b hr
+      refine ⟨hs.1, hwf, hins, ⟨g1, g2, g3⟩, hpv, ?_, hs.2.1, hs.2.2⟩
+      intro hbt
+      rw [hb] at hbt
+      cases hbt
+    | addMark _ _ _ => exact hs
+    | removeMark _ _ _ => exact hs
+    | attr _ _ _ => exact hs
+    | docAttr _ _ => exact hs
+    | addNodeMark _ _ => exact hs
+    | removeNodeMark _ _ => exact hs
+
 end PM.C04
